@@ -174,7 +174,12 @@ func (e *swExtractor) Extract(ctx context.Context, input *filesystem.ScanInput) 
 	}
 	pkg := &extractor.Package{Name: key, Version: "1", Locations: []string{input.Path}}
 	// a second package that ties with every other extraction's on name and version (sort keys 3 and 4 decide)
-	tie := &extractor.Package{Name: "tie", Version: "1", Locations: []string{input.Path}}
+	// the first extractor reports the higher version, so version (2nd key) and extractor (3rd key) pull in opposite directions
+	tieVer := "1"
+	if e.name == "e1" {
+		tieVer = "2"
+	}
+	tie := &extractor.Package{Name: "tie", Version: tieVer, Locations: []string{input.Path}}
 	// two more that also tie on extractor and on the first (smallest) location: only the later location decides
 	tieY := &extractor.Package{Name: "tie", Version: "1", Locations: []string{"~y", input.Path}}
 	tieX := &extractor.Package{Name: "tie", Version: "1", Locations: []string{input.Path, "~x"}}
